@@ -151,6 +151,32 @@ def check(run):
            "scan and scan_node share one default depth", detail="" if same else f"{d1 and norm_src(d1)} vs {d2 and norm_src(d2)}",
            mech="default expression comparison")
 
+    # ---- R3 control-independence: apart from the bare-root guard, no statement's execution may depend on the
+    # value of DEPTH (once DEPTH >= 1); a recursive call may additionally be skipped when its callee would
+    # return at once (DEPTH - c <= 0), which is behaviour-neutral.
+    rec_ids = {}
+    for c in rec_calls:
+        arg = common.call_arg(c, sn, 2, DEPTH)
+        lf = lin_of_ast(az.inline(arg), lambda x: Lin.sym(ast.unparse(x))) if arg is not None else None
+        cc = int(-lf.c) if lf is not None and set(lf.t) == {DEPTH} and lf.t[DEPTH] == 1 else None
+        rec_ids[id(common.enclosing_stmt(c))] = cc
+    simple = [n for n in own_nodes(sn.node) if isinstance(n, ast.stmt) and not isinstance(
+        n, (ast.If, ast.For, ast.While, ast.With, ast.Try, ast.FunctionDef, ast.ClassDef))]
+    nci = 0
+    for stn in simple:
+        pc = G.reach(sn.body, stn, az)
+        if pc is None:
+            continue
+        if isinstance(stn, ast.Return) and G.satisfiable(G.f_and(pc, G.f_not(depth_ge_1))):
+            continue   # the bare-root return, judged by R1
+        bad = depth_dependence(pc, DEPTH, rec_ids.get(id(stn), None) if id(stn) in rec_ids else None)
+        nci += 1
+        run.ob("R3-control-independence", f"multidecoder.scan_node/{common.stmt_kind(stn)}:{common.short_src(stn, 50)}", bad is None, where(stn),
+               f"whether `{common.short_src(stn, 60)}` runs does not depend on the remaining depth (beyond the bare-root guard)",
+               detail="" if bad is None else f"runs at {DEPTH}={bad[1]} but not at {DEPTH}={bad[0]} (other conditions equal): "
+               "the tree for k is then not a truncation of the tree for k+1", mech="reaching condition evaluated over depth values")
+    run.floor("R3-control-independence", 15)
+
     # ---- R3 non-interference: every Load of DEPTH is inside a guard test or a recursive call's depth argument
     allowed_nodes = set()
     for n in own_nodes(sn.node):
@@ -186,3 +212,26 @@ def check(run):
                f"use of {DEPTH} in `{common.short_src(par)}` is a guard test or a recursive-call depth argument",
                detail="" if ok else "the depth budget influences something other than where the search stops",
                mech="def-use chain of the parameter")
+
+
+def depth_dependence(pc, DEPTH, skip_c):
+    """None if the truth of pc does not depend on the DEPTH value (>= 1) under any assignment of the other atoms;
+    else (d_false, d_true). With skip_c = c, pc may additionally be false where DEPTH - c <= 0."""
+    by_other = {}
+    for env in G.models(pc):
+        d = env.get("term:" + DEPTH)
+        if d is None:
+            return None
+        if d < 1:
+            continue
+        key = tuple(sorted((str(k), v) for k, v in env.items() if k != "term:" + DEPTH))
+        by_other.setdefault(key, {})[d] = G.evaluate(pc, env)
+    for key, tv in by_other.items():
+        big = max(tv)
+        ref = tv[big]
+        for d, v in sorted(tv.items()):
+            if v != ref:
+                if skip_c is not None and not v and d - skip_c <= 0:
+                    continue
+                return (d, big) if ref else (big, d)
+    return None
